@@ -260,6 +260,16 @@ def gen_clim(tier, rng):
         n = rng.choice([1, 2, 3, 4, 6, 9])
         cases.append(make_case(rng, ms, n, rng.choice(["all", "mixed", "mixed", "none"]),
                                xmissing=rng.choice([0, 0.2, 0.5]), sort_times=rng.random() < 0.8))
+    # a member listed AGAIN later ([A, B, A], [A, B, B', A]): re-listing puts it back on top of the members
+    # between its two occurrences ("the last matching member decides")
+    import copy
+    for _ in range(250 if quick else 2500):
+        a, b = gen_member(rng), gen_member(rng)
+        if b["period"] == a["period"] and rng.random() < 0.7:
+            b["tspan"] = list(a["tspan"])                  # overlapping in time
+        ms = [a, b] + ([gen_member(rng)] if rng.random() < 0.3 else []) + [copy.deepcopy(a)]
+        cases.append(make_case(rng, ms, rng.choice([2, 3, 4, 6, 9]), rng.choice(["all", "mixed", "none"]),
+                               xmissing=rng.choice([0, 0.2])))
     # all values present and all depths present (the class on which the property holds)
     for _ in range(300 if quick else 3000):
         ms = [gen_member(rng) for _ in range(rng.choice([1, 2, 3]))]
